@@ -90,6 +90,10 @@ def bcNeedsUpdate (rounds : Nat) (hs : Str) : Res Bool :=
 /-- `salt.rsplit(b"$")[-1]`: what follows the last "$" (everything when there is none) -/
 def lastField (salt : Bytes) : Bytes := (salt.reverse.takeWhile (· ≠ DOLLAR)).reverse
 
+/-- `salt.rsplit(b"$")[-1][:22]`: the 22 salt characters bcrypt reads — the key of the pre-hash (fix 0142233: a longer argument, e.g. a whole
+    bcrypt hash handed over as `salt=`, used to key the pre-hash with everything after the last "$" while the record carries 22 characters) -/
+def saltKey (salt : Bytes) : Bytes := (lastField salt).take 22
+
 /-- `base64.b64encode(hmac.new(key=salt, msg=secret, digestmod=hashlib.sha256).digest())` on bytes -/
 def prehash (secret salt : Bytes) : Bytes := b64encode (Spec.Hmac.hmac Spec.SHA256.sha256 64 salt secret)
 
@@ -107,7 +111,7 @@ def phcRecord (type : Str) (rounds : Int) (salt hash : Option Str) : Parsed :=
 /-- `BcryptSHA256Hasher.hash(secret, salt=salt)`:
     ```
     salt = salt or bcrypt.gensalt(rounds=self._rounds, prefix=self.prefixes[0])
-    prepared_secret = self._prepare_secret(secret, salt=salt.rsplit(b"$")[-1])
+    prepared_secret = self._prepare_secret(secret, salt=salt.rsplit(b"$")[-1][:22])
     hash = as_str(bcrypt.hashpw(prepared_secret, salt))
     info = inspect_bcrypt_hash(hash)
     if not info: raise Panic
@@ -116,7 +120,7 @@ def phcRecord (type : Str) (rounds : Int) (salt hash : Option Str) : Parsed :=
     (`self._rounds` is not read when the caller supplies the salt: the record is built from the PARSED output of the package) -/
 def bshaHash (L : Lib) (secret : Secret) (salt : Bytes) : Res Str :=
   if salt.isEmpty then .error .notImplemented
-  else match prepareSecret secret (lastField salt) with
+  else match prepareSecret secret (saltKey salt) with
     | .error e => .error e
     | .ok prepared =>
       match L.hashpw prepared salt with
